@@ -165,7 +165,7 @@ AEAD_encrypt(AEADObject *self, PyObject *args)
     if (!PyArg_ParseTuple(args, "y#y#K", &data, &data_len, &associated, &associated_len, &pn))
         return NULL;
 
-    if (data_len > PACKET_LENGTH_MAX) {
+    if (data_len > PACKET_LENGTH_MAX - AEAD_TAG_LENGTH) {
         PyErr_SetString(CryptoError, "Invalid payload length");
         return NULL;
     }
@@ -296,8 +296,18 @@ HeaderProtection_apply(HeaderProtectionObject *self, PyObject *args)
     if (!PyArg_ParseTuple(args, "y#y#", &header, &header_len, &payload, &payload_len))
         return NULL;
 
+    if (header_len < 1 || header_len + payload_len > PACKET_LENGTH_MAX) {
+        PyErr_SetString(CryptoError, "Invalid packet length");
+        return NULL;
+    }
+
     int pn_length = (header[0] & 0x03) + 1;
     int pn_offset = header_len - pn_length;
+
+    if (pn_offset < 1 || payload_len < PACKET_NUMBER_LENGTH_MAX - pn_length + SAMPLE_LENGTH) {
+        PyErr_SetString(CryptoError, "Payload is too short for header protection");
+        return NULL;
+    }
 
     res = HeaderProtection_mask(self, payload + PACKET_NUMBER_LENGTH_MAX - pn_length);
     CHECK_RESULT(res != 0);
@@ -327,6 +337,13 @@ HeaderProtection_remove(HeaderProtectionObject *self, PyObject *args)
 
     if (!PyArg_ParseTuple(args, "y#I", &packet, &packet_len, &pn_offset))
         return NULL;
+
+    if (pn_offset < 0 ||
+        pn_offset > PACKET_LENGTH_MAX - PACKET_NUMBER_LENGTH_MAX ||
+        pn_offset + PACKET_NUMBER_LENGTH_MAX + SAMPLE_LENGTH > packet_len) {
+        PyErr_SetString(CryptoError, "Packet is too short for header protection");
+        return NULL;
+    }
 
     res = HeaderProtection_mask(self, packet + pn_offset + PACKET_NUMBER_LENGTH_MAX);
     CHECK_RESULT(res != 0);
